@@ -3,7 +3,10 @@ package main
 // `gocv check`: decide one property on the current working tree of /repo.
 
 import (
+	"go/token"
 	"go/types"
+
+	"golang.org/x/tools/go/ssa"
 	"crypto/sha256"
 	"encoding/hex"
 	"encoding/json"
@@ -141,6 +144,17 @@ func runProperty(id, tier string, timeout int, overlay map[string][]byte, only s
 			return nil, fmt.Errorf("contracts: %v", err)
 		}
 		run.files = append(run.files, e.db.Files...)
+		for _, rc := range e.db.RecvOnly {
+			serves := false
+			for _, p := range rc.Props {
+				if p == id {
+					serves = true
+				}
+			}
+			if serves && (only == "" || strings.Contains(rc.Chan, only)) {
+				run.results = append(run.results, e.checkRecvOnly(rc))
+			}
+		}
 		for _, mc := range e.db.MethodSets {
 			serves := false
 			for _, p := range mc.Props {
@@ -519,6 +533,66 @@ func (e *Engine) checkMethodSet(mc *MethodSetCheck) *FuncResult {
 		o.Res = &SolveResult{Status: "unsat", Backend: "go/types"}
 	} else {
 		o.Res = &SolveResult{Status: "sat", Backend: "go/types", Output: msg}
+		o.Query = "; " + msg
+	}
+	return res
+}
+
+// checkRecvOnly scans every function of the package for receives from the named channel
+// field (plain receives, select cases, range) and requires them to be in the listed functions.
+func (e *Engine) checkRecvOnly(rc *RecvOnlyCheck) *FuncResult {
+	key := rc.Pkg + "." + rc.Chan + "$recvonly"
+	res := &FuncResult{Key: key, Unmodelled: map[string]int{}, Assumed: map[string]int{}, Notes: map[string]int{}, Inlined: map[string]int{}}
+	o := &Obligation{Func: key, Name: "ground[receivers of " + rc.Chan + "]", Kind: "ground", Label: "receivers", Where: rc.Where, Goal: tTrue}
+	res.Obls = []*Obligation{o}
+	allowed := map[string]bool{}
+	for _, f := range rc.Funcs {
+		allowed[f] = true
+	}
+	x := &Explorer{eng: e}
+	var bad []string
+	for k, fn := range e.fnByKey {
+		if !strings.HasPrefix(k, rc.Pkg+".") || fn.Blocks == nil {
+			continue
+		}
+		name := fn.Name()
+		for p := fn.Parent(); p != nil; p = p.Parent() {
+			name = p.Name()
+		}
+		fr := &Frame{fn: fn}
+		for _, b := range fn.Blocks {
+			for _, ins := range b.Instrs {
+				var chans []ssa.Value
+				switch i := ins.(type) {
+				case *ssa.UnOp:
+					if i.Op == token.ARROW {
+						chans = append(chans, i.X)
+					}
+				case *ssa.Select:
+					for _, s := range i.States {
+						if s.Dir == types.RecvOnly {
+							chans = append(chans, s.Chan)
+						}
+					}
+				case *ssa.Range:
+					if _, ok := i.X.Type().Underlying().(*types.Chan); ok {
+						chans = append(chans, i.X)
+					}
+				}
+				for _, c := range chans {
+					if x.chanExprName(fr, c) == rc.Chan && !allowed[name] {
+						bad = append(bad, name+" ("+e.posStr(ins.Pos())+")")
+					}
+				}
+			}
+		}
+	}
+	if len(bad) == 0 {
+		o.Res = &SolveResult{Status: "unsat", Backend: "go/ssa scan"}
+	} else {
+		sort.Strings(bad)
+		msg := "receives from " + rc.Chan + " outside " + strings.Join(rc.Funcs, ", ") + ": " + strings.Join(bad, "; ")
+		o.Res = &SolveResult{Status: "sat", Backend: "go/ssa scan", Output: msg}
 		o.Query = "; " + msg
 	}
 	return res
